@@ -5,6 +5,7 @@ package verifhook
 import (
 	"context"
 	"net"
+	"sync"
 	"sync/atomic"
 )
 
@@ -41,4 +42,27 @@ func Fail(point string) error {
 		return (*f)(point)
 	}
 	return nil
+}
+
+var (
+	countMu sync.Mutex
+	counts  = map[string]int64{}
+)
+
+// Count tallies one expensive operation of the given kind.
+func Count(kind string) {
+	countMu.Lock()
+	counts[kind]++
+	countMu.Unlock()
+}
+
+// Counts returns a copy of the tallies.
+func Counts() map[string]int64 {
+	countMu.Lock()
+	defer countMu.Unlock()
+	out := make(map[string]int64, len(counts))
+	for k, v := range counts {
+		out[k] = v
+	}
+	return out
 }
